@@ -18,7 +18,17 @@ func (b BudgetExceeded) Error() string { return "loop budget exceeded at " + b.S
 var (
 	seqTicks  int64
 	SeqBudget int64 = 200000
+	// seqAllowance grows with the input delivered to the code under test in the
+	// current case: work that is linear in the input (closing two million nested
+	// arrays after the last byte was read) is not a spin.
+	seqAllowance int64
 )
+
+// SeqDelivered tells the budget that n more input bytes were handed over.
+func SeqDelivered(n int) { seqAllowance += 64 * int64(n) }
+
+// ResetSeqAllowance starts a new sequential case.
+func ResetSeqAllowance() { seqAllowance = 0 }
 
 // ResetRand puts the global math/rand source into a fixed state: repository
 // code that draws from it (cursor jitter, sampling) then behaves the same in
@@ -33,7 +43,7 @@ func Tick(site string) {
 	e := cur
 	if e == nil {
 		seqTicks++
-		if seqTicks > SeqBudget {
+		if seqTicks > SeqBudget+seqAllowance {
 			seqTicks = 0
 			panic(BudgetExceeded{Site: site})
 		}
